@@ -33,6 +33,9 @@ pub enum Act {
   /// declaration: when root `outer`'s subscriber receives `trig`, its callback unsubscribes
   /// root `outer`'s own subscription (no-op while subscribe() has not returned yet)
   SelfUnsub { outer: usize, trig: Trig },
+  /// declaration: root `outer`'s callback panics (after it has recorded the event) at the trigger; the
+  /// driver catches the unwinding at the emission that caused it and goes on. Real run only.
+  PanicAt { outer: usize, trig: Trig },
   /// unsubscribe the k-th (1-based) inner observable that root r was handed by window_with_count / group_by
   InnerUnsub(usize, u32),
   /// emit `.1` into hot source `.0`; the first time the library clones an item during that emission,
@@ -105,6 +108,7 @@ impl Case {
         Act::Nest { outer, trig, inner } => format!("[#{} subscribes #{} from its callback at {:?}]", outer, inner, trig),
         Act::Feed { outer, trig, src, ev } => format!("[#{}'s callback at {:?} pushes {} into s{}]", outer, trig, ev.show(), src),
         Act::SelfUnsub { outer, trig } => format!("[#{}'s callback at {:?} unsubscribes #{}]", outer, trig, outer),
+        Act::PanicAt { outer, trig } => format!("[#{}'s callback panics at {:?}]", outer, trig),
         Act::InnerUnsub(r, k) => format!("unsub-inner#{}.{}", r, k),
         Act::EmitCloneFeed(i, e, f) => format!("s{}!{} [the item's Clone pushes {} into s{}]", i, e.show(), f.show(), i),
         Act::EmitFnFeed(i, e, f) => format!("s{}!{} [the first operator function called pushes {} into s{}]", i, e.show(), f.show(), i),
@@ -142,8 +146,17 @@ struct Registry {
   snaps: Arc<Mutex<Vec<(usize, usize, Vec<Vec<bool>>)>>>,
 }
 
+thread_local! {
+  /// one error object per code and run: a source that fails twice with the same code hands out clones of
+  /// the same `RxError` (as `observables::error`, a stored error of a subject, or any source that keeps its
+  /// error around does) - an operator must not read anything into that identity
+  static ERRS: std::cell::RefCell<std::collections::HashMap<i64, RxError>> = std::cell::RefCell::new(std::collections::HashMap::new());
+}
+fn reset_errs() {
+  ERRS.with(|m| m.borrow_mut().clear());
+}
 fn mk_err(k: i64, addrs: &Arc<Mutex<Vec<(i64, usize)>>>) -> RxError {
-  let e = err(k);
+  let e = ERRS.with(|m| m.borrow_mut().entry(k).or_insert_with(|| err(k)).clone());
   let a = e.downcast_ref::<Payload>().map(|p| p as *const Payload as usize).unwrap_or(0);
   addrs.lock().unwrap().push((k, a));
   e
@@ -307,6 +320,7 @@ struct SRec {
   feeds: Arc<Mutex<Vec<(usize, Trig, usize, Ev, bool)>>>,
   pushers: Arc<Mutex<Vec<Arc<dyn Fn(&Ev) + Send + Sync>>>>,
   self_unsubs: Arc<Mutex<Vec<(usize, Trig, bool)>>>,
+  panics: Arc<Mutex<Vec<(usize, Trig, bool)>>>,
   root_subs: Arc<Mutex<Vec<Option<Subscription<'static>>>>>,
   /// (root, length of the log when its unsubscribe - called from a callback - had returned)
   unsub_marks: Arc<Mutex<Vec<(usize, usize)>>>,
@@ -319,6 +333,9 @@ fn conv_mat(m: Material<V>) -> D {
     Material::Complete => D::MComplete,
   }
 }
+
+/// payload of a panic a subscriber callback raises on purpose (Act::PanicAt)
+pub struct CallbackPanic;
 
 impl SRec {
   fn push(&self, rec: u32, ev: Ev, err_addr: usize) {
@@ -381,6 +398,20 @@ impl SRec {
           let n = self.log.lock().unwrap().len();
           self.unsub_marks.lock().unwrap().push((root, n));
         }
+      }
+      let pn: bool = {
+        let mut f = self.panics.lock().unwrap();
+        let mut hit = false;
+        for x in f.iter_mut() {
+          if x.0 == root && !x.2 && x.1.matches(&ev, items) {
+            x.2 = true;
+            hit = true;
+          }
+        }
+        hit
+      };
+      if pn {
+        std::panic::panic_any(CallbackPanic);
       }
     }
   }
@@ -514,6 +545,7 @@ pub struct RunOpts {
 }
 
 pub fn run_real(case: &Case, opts: &RunOpts) -> Trace {
+  reset_errs();
   let mut tr = Trace::default();
   let toks = Tokens::default();
   let tap_log = Arc::new(Mutex::new(vec![]));
@@ -534,6 +566,7 @@ pub fn run_real(case: &Case, opts: &RunOpts) -> Trace {
     )),
     pushers: Arc::new(Mutex::new(vec![])),
     self_unsubs: Arc::new(Mutex::new(case.acts.iter().filter_map(|a| if let Act::SelfUnsub { outer, trig } = a { Some((*outer, *trig, false)) } else { None }).collect())),
+    panics: Arc::new(Mutex::new(case.acts.iter().filter_map(|a| if let Act::PanicAt { outer, trig } = a { Some((*outer, *trig, false)) } else { None }).collect())),
     root_subs: Arc::new(Mutex::new(vec![])),
     unsub_marks: Arc::new(Mutex::new(vec![])),
   };
@@ -602,9 +635,32 @@ pub fn run_real(case: &Case, opts: &RunOpts) -> Trace {
     drop(env);
     let mut subs: Vec<Option<Subscription<'static>>> = (0..n_roots).map(|_| None).collect();
     let mut guards: Vec<utils::Using<'static>> = vec![];
+    let has_panic_decl = case.acts.iter().any(|a| matches!(a, Act::PanicAt { .. }));
     for (step, act) in case.acts.iter().enumerate() {
       rec.step.store(step, Ordering::Relaxed);
       match act {
+        Act::Sub(r) if has_panic_decl => {
+          // a callback that panics during the hand-over inside subscribe(): the caller guards the call and
+          // gets no Subscription back
+          let bh = built_held.clone();
+          let rec2 = rec.clone();
+          let rr = *r;
+          match std::panic::catch_unwind(std::panic::AssertUnwindSafe(move || rec2.subscribe(bh.as_ref().expect("no subscribe after the pipeline was dropped"), rec_id(rr)))) {
+            Ok(s) => {
+              let mut rs = rec.root_subs.lock().unwrap();
+              while rs.len() <= *r {
+                rs.push(None);
+              }
+              rs[*r] = Some(s.clone());
+              subs[*r] = Some(s)
+            }
+            Err(p) => {
+              if !p.is::<CallbackPanic>() {
+                std::panic::resume_unwind(p);
+              }
+            }
+          }
+        }
         Act::Sub(r) => {
           let s = rec.subscribe(built_held.as_ref().expect("no subscribe after the pipeline was dropped"), rec_id(*r));
           {
@@ -617,10 +673,23 @@ pub fn run_real(case: &Case, opts: &RunOpts) -> Trace {
           subs[*r] = Some(s)
         }
         Act::Emit(i, ev) => {
-          if matches!(case.srcs[*i], SrcKind::Subject | SrcKind::BehaviorSubject | SrcKind::ReplaySubject) {
-            srcs[*i].push_subject(&case.srcs[*i], ev)
+          let emit = || {
+            if matches!(case.srcs[*i], SrcKind::Subject | SrcKind::BehaviorSubject | SrcKind::ReplaySubject) {
+              srcs[*i].push_subject(&case.srcs[*i], ev)
+            } else {
+              srcs[*i].push(ev)
+            }
+          };
+          if has_panic_decl {
+            // the caller of next()/error()/complete() guards the call: a panic of the subscriber's callback
+            // (and only that) ends there, and the source goes on
+            if let Err(p) = std::panic::catch_unwind(std::panic::AssertUnwindSafe(emit)) {
+              if !p.is::<CallbackPanic>() {
+                std::panic::resume_unwind(p);
+              }
+            }
           } else {
-            srcs[*i].push(ev)
+            emit()
           }
         }
         Act::EmitCloneFeed(i, ev, fed) => {
@@ -674,7 +743,7 @@ pub fn run_real(case: &Case, opts: &RunOpts) -> Trace {
             s.unsubscribe()
           }
         }
-        Act::Nest { .. } | Act::Feed { .. } | Act::SelfUnsub { .. } | Act::NestFromTap { .. } => {}
+        Act::Nest { .. } | Act::Feed { .. } | Act::SelfUnsub { .. } | Act::NestFromTap { .. } | Act::PanicAt { .. } => {}
       }
       for (r, s) in rec.nested_subs.lock().unwrap().iter() {
         if subs[*r].is_none() {
@@ -805,6 +874,7 @@ pub fn run_ref(case: &Case) -> Trace {
       }
       Act::Nest { .. } => {}
       Act::Feed { .. } | Act::SelfUnsub { .. } | Act::NestFromTap { .. } => {}
+      Act::PanicAt { .. } => panic!("MACHINERY: PanicAt has no reference semantics; reference-free oracles only"),
       Act::EmitCloneFeed(..) | Act::EmitFnFeed(..) => panic!("MACHINERY: EmitCloneFeed/EmitFnFeed have no reference semantics; reference-free oracles only"),
       Act::InnerUnsub(r, k) => {
         // only an inner observable the subscriber has been handed already can be unsubscribed
